@@ -1,20 +1,28 @@
 (* C05 -- scenarios with memory accounting on: the accounting wrapper allocators between the tracked entry points and the
    underlying allocator.
 
-   Part 1: executable mirror of AccountingTestMemoryAllocator::alloc_memory / free_memory and of its tracking list
+   Part 1: executable mirror of AccountingTestMemoryAllocator::alloc_memory / free_memory, of its tracking list
    (TestMemoryAllocator.cpp: addMemoryToMemoryTrackingToKeepTrackOfSize, removeMemoryFromTrackingAndReturnAllocatedSize,
-   removeHeadAndReturnSize, removeNextNodeAndReturnSize) over an oracle for the allocator it wraps, and the proof that the
-   wrapper is transparent: the pointer it returns is the pointer the wrapped allocator returned for exactly the requested
-   size (so address, alignment, usable bytes and region are the wrapped allocator's), its own node is a separate request,
-   and free hands back exactly the pointer it was given plus the node.  This is why [run] of a wrapper scenario is [run] of
-   the scenario without wrappers.  The variant that puts the node in front of the block (one request of NODE + size, returns
-   block + NODE) is refuted for NODE = 24: its blocks are 8 mod 16.
+   removeHeadAndReturnSize, removeNextNodeAndReturnSize) and of the part of MemoryAccountant that asks for memory
+   (findOrCreateNodeOfSize: one statistics node per size, requested when a size is first accounted for) over an oracle for the
+   allocator it wraps.  Proved: the wrapper is transparent -- the pointer it returns is the pointer the wrapped allocator
+   returned for exactly the requested size (so address, alignment, usable bytes and region are the wrapped allocator's), its own
+   node and the statistics node are separate requests, and free hands back exactly the pointer it was given plus the node --
+   which is why [run] of a wrapper scenario is [run] of the scenario without wrappers; and it fails cleanly: when the wrapped
+   allocator refuses the block or the tracking node, alloc_memory returns NULL, tracking list and statistics are unchanged and
+   no block of the wrapped allocator stays allocated; when it refuses only the statistics node, the block is returned and that
+   size simply has no statistics.  The code as it was before the repair (statistics first, no NULL test on either node, a NULL
+   block recorded like a block) is kept as [w_alloc_old]; the clean-failure statement is refuted for it on the scenario that
+   crashed (`1 40 1 2 :wrap :m 10`: the third underlying request, the tracking node, refused).  The variant that puts the
+   node in front of the block (one request of NODE + size, returns block + NODE) is refuted for NODE = 24: its blocks are 8 mod 16.
 
-   Part 2: what [spec] demands of a wrapper scenario: everything it demands without wrappers except the two clauses about the
-   sizes and the balance of the underlying calls; of the call logs it reads only "did a call fail" (this is the projection
-   checks/C05.py applies before it compares the model's and the implementation's observation of a wrapper scenario). *)
+   Part 2: what [spec] demands of a wrapper scenario: everything it demands without wrappers except the clause about the sizes
+   of the underlying calls, with "no failed call" weakened to "no failed call other than a request for a statistics node" for a
+   returned pointer and "everything given back" to "everything but statistics nodes given back" for a failed request; of the call
+   logs it reads only these three facts (this is the projection checks/C05.py applies before it compares the model's and the
+   implementation's observation of a wrapper scenario without fault indices). *)
 From Coq Require Import NArith Bool List Lia.
-From CppUVerif Require Import gen.Gen_Common gen.Gen_C05 lib.Str C05_Model.
+From CppUVerif Require Import gen.Gen_Common gen.Gen_C05 lib.Str C05_Model C05_Proofs C05_History.
 Import ListNotations.
 Local Open Scope N_scope.
 
@@ -24,16 +32,49 @@ Local Open Scope N_scope.
 (* addresses are numbers, NULL = 0.  [und k size]: what the wrapped allocator returns for its k-th request (0 = refused). *)
 Record wnode := { wn_addr : N; wn_mem : N; wn_size : N }.      (* the node's own address, memory_, size_ *)
 Inductive ucall := UAlloc (size res : N) | UFree (addr size : N).
-Definition NODE : N := 24.                                     (* sizeof(AccountingTestMemoryAllocatorMemoryNode), LP64 *)
+Definition NODE : N := c05_tracking_node_size.                 (* sizeof(AccountingTestMemoryAllocatorMemoryNode), LP64: 24 *)
+Definition STAT : N := c05_accountant_node_size.               (* sizeof(MemoryAccountantAllocationNode), LP64: 48 *)
 
-(* alloc_memory: accountant_.alloc(size) [statistics only]; memory = original->alloc_memory(size);
-   addMemoryToMemoryTrackingToKeepTrackOfSize(memory, size): node = original->alloc_memory(sizeof node), written without a
-   NULL test ([None] = the NULL node is dereferenced), pushed at the head *)
-Definition w_alloc (node_sz : N) (und : N -> N -> N) (k : N) (l : list wnode) (size : N) : option (N * list wnode * list ucall) :=
+(* MemoryAccountant::alloc(size) / dealloc(size) as far as memory goes: findOrCreateNodeOfSize asks the allocator for a node
+   when [size] has none yet ([cl]: the sizes that have one).  Repaired code: a refused node leaves the list as it is and the
+   statistics of this call are skipped *)
+Definition a_touch (und : N -> N -> N) (k : N) (cl : list N) (size : N) : N * list N * list ucall :=
+  if mem size cl then (k, cl, [])
+  else let node := und k STAT in (k + 1, (if node =? 0 then cl else size :: cl), [UAlloc STAT node]).
+(* as it was: the refused node is written to ([None] = NULL dereferenced) *)
+Definition a_touch_old (und : N -> N -> N) (k : N) (cl : list N) (size : N) : option (N * list N * list ucall) :=
+  if mem size cl then Some (k, cl, [])
+  else let node := und k STAT in if node =? 0 then None else Some (k + 1, size :: cl, [UAlloc STAT node]).
+
+(* result pointer, next request index, sizes with statistics, tracking list, requests made *)
+Record wres := { r_ptr : N; r_k : N; r_cl : list N; r_list : list wnode; r_calls : list ucall }.
+
+(* alloc_memory, repaired: memory = original->alloc_memory(size), NULL passed on; addMemoryToMemoryTrackingToKeepTrackOfSize:
+   node = original->alloc_memory(sizeof node), on NULL the block is given back and NULL returned, else the node is pushed at
+   the head; accountant_.alloc(size) last, for a request that was served *)
+Definition w_alloc (node_sz : N) (und : N -> N -> N) (k : N) (cl : list N) (l : list wnode) (size : N) : wres :=
   let memory := und k size in
-  let node := und (k + 1) node_sz in
-  if node =? 0 then None
-  else Some (memory, {| wn_addr := node; wn_mem := memory; wn_size := size |} :: l, [UAlloc size memory; UAlloc node_sz node]).
+  if memory =? 0 then {| r_ptr := 0; r_k := k + 1; r_cl := cl; r_list := l; r_calls := [UAlloc size 0] |}
+  else
+    let node := und (k + 1) node_sz in
+    if node =? 0 then {| r_ptr := 0; r_k := k + 2; r_cl := cl; r_list := l; r_calls := [UAlloc size memory; UAlloc node_sz 0; UFree memory size] |}
+    else
+      let '(k', cl', cs) := a_touch und (k + 2) cl size in
+      {| r_ptr := memory; r_k := k'; r_cl := cl'; r_list := {| wn_addr := node; wn_mem := memory; wn_size := size |} :: l;
+         r_calls := [UAlloc size memory; UAlloc node_sz node] ++ cs |}.
+
+(* alloc_memory as it was: accountant_.alloc(size) first; memory = original->alloc_memory(size) is not tested; the node is
+   written without a NULL test ([None]) and records whatever [memory] is, NULL included *)
+Definition w_alloc_old (node_sz : N) (und : N -> N -> N) (k : N) (cl : list N) (l : list wnode) (size : N) : option wres :=
+  match a_touch_old und k cl size with
+  | None => None
+  | Some (k1, cl1, cs1) =>
+      let memory := und k1 size in
+      let node := und (k1 + 1) node_sz in
+      if node =? 0 then None
+      else Some {| r_ptr := memory; r_k := k1 + 2; r_cl := cl1; r_list := {| wn_addr := node; wn_mem := memory; wn_size := size |} :: l;
+                   r_calls := cs1 ++ [UAlloc size memory; UAlloc node_sz node] |}
+  end.
 
 (* removeMemoryFromTrackingAndReturnAllocatedSize: the head, else the first later node whose memory_ is [memory] *)
 Fixpoint w_remove (memory : N) (l : list wnode) : option wnode * list wnode :=
@@ -42,11 +83,12 @@ Fixpoint w_remove (memory : N) (l : list wnode) : option wnode * list wnode :=
   | x :: r => if wn_mem x =? memory then (Some x, r) else let '(fo, r') := w_remove memory r in (fo, x :: r')
   end.
 
-(* free_memory: the node (if there is one) is given back, then original->free_memory(memory, size) *)
-Definition w_free (l : list wnode) (memory : N) : list wnode * list ucall :=
+(* free_memory: the node (if there is one) is given back, accountant_.dealloc(size of the node, 0 without one), then
+   original->free_memory(memory, size) *)
+Definition w_free (und : N -> N -> N) (k : N) (cl : list N) (l : list wnode) (memory : N) : N * list N * list wnode * list ucall :=
   match w_remove memory l with
-  | (Some x, l') => (l', [UFree (wn_addr x) (wn_size x); UFree memory (wn_size x)])
-  | (None, l') => (l', [UFree memory 0])
+  | (Some x, l') => let '(k', cl', cs) := a_touch und k cl (wn_size x) in (k', cl', l', UFree (wn_addr x) (wn_size x) :: cs ++ [UFree memory (wn_size x)])
+  | (None, l') => let '(k', cl', cs) := a_touch und k cl 0 in (k', cl', l', cs ++ [UFree memory 0])
   end.
 
 (* the variant with the node in front of the block: one request, the block starts [node_sz] bytes into it *)
@@ -55,39 +97,88 @@ Definition w_alloc_prefix (node_sz : N) (und : N -> N -> N) (k : N) (l : list wn
   if block =? 0 then (0, l, [UAlloc (node_sz + size) 0])
   else (block + node_sz, {| wn_addr := block; wn_mem := block + node_sz; wn_size := size |} :: l, [UAlloc (node_sz + size) block]).
 
-(* transparency: same pointer, same size asked of the wrapped allocator, the node a request of its own *)
-Lemma wrapper_transparent node_sz und k l size p l' cs :
-  w_alloc node_sz und k l size = Some (p, l', cs) ->
-  p = und k size /\ p mod 16 = und k size mod 16 /\
-  cs = [UAlloc size p; UAlloc node_sz (und (k + 1) node_sz)] /\ und (k + 1) node_sz <> 0 /\
-  l' = {| wn_addr := und (k + 1) node_sz; wn_mem := p; wn_size := size |} :: l.
+(* blocks of the wrapped allocator obtained and not given back by a sequence of requests *)
+Fixpoint held (cs : list ucall) (acc : list N) : list N :=
+  match cs with
+  | [] => acc
+  | UAlloc _ res :: r => held r (if res =? 0 then acc else res :: acc)
+  | UFree a _ :: r => held r (filter (fun x => negb (x =? a)) acc)
+  end.
+Definition stat_request (c : ucall) : Prop := exists res, c = UAlloc STAT res.
+
+Lemma a_touch_calls und k cl size : Forall stat_request (snd (a_touch und k cl size)).
 Proof.
-  unfold w_alloc. destruct (N.eqb_spec (und (k + 1) node_sz) 0) as [E|E]; [discriminate|].
-  intro H. injection H as <- <- <-. repeat split; try reflexivity. exact E.
+  unfold a_touch. destruct (mem size cl); cbn [snd]; [constructor|]. constructor; [eexists; reflexivity|constructor].
 Qed.
 
-(* a refused request is passed on as NULL (the wrapper keeps a node for it) *)
-Lemma wrapper_passes_null node_sz und k l size p l' cs :
-  und k size = 0 -> w_alloc node_sz und k l size = Some (p, l', cs) -> p = 0.
-Proof. intros E H. apply wrapper_transparent in H. destruct H as [H _]. rewrite H. exact E. Qed.
-
-(* free after alloc: the tracking list is what it was; exactly the two pointers obtained are given back, the block first
-   found by its own address *)
-Lemma wrapper_alloc_free node_sz und k l size p l' cs :
-  w_alloc node_sz und k l size = Some (p, l', cs) ->
-  w_free l' p = (l, [UFree (und (k + 1) node_sz) size; UFree p size]).
+(* transparency: a pointer the wrapper returns is the wrapped allocator's pointer for exactly the requested size (same address,
+   same alignment); the node is a request of its own and is pushed; whatever else is asked for is a statistics node *)
+Lemma wrapper_transparent node_sz und k cl l size :
+  let r := w_alloc node_sz und k cl l size in
+  r_ptr r <> 0 ->
+  r_ptr r = und k size /\ r_ptr r mod 16 = und k size mod 16 /\ und (k + 1) node_sz <> 0 /\
+  r_list r = {| wn_addr := und (k + 1) node_sz; wn_mem := r_ptr r; wn_size := size |} :: l /\
+  exists cs, r_calls r = [UAlloc size (r_ptr r); UAlloc node_sz (und (k + 1) node_sz)] ++ cs /\ Forall stat_request cs.
 Proof.
-  intro H. apply wrapper_transparent in H. destruct H as (_ & _ & _ & _ & ->).
-  unfold w_free. cbn [w_remove wn_mem]. rewrite N.eqb_refl. reflexivity.
+  cbv zeta. unfold w_alloc.
+  destruct (N.eqb_spec (und k size) 0) as [E|E]; [cbn [r_ptr]; congruence|].
+  destruct (N.eqb_spec (und (k + 1) node_sz) 0) as [E2|E2]; [cbn [r_ptr]; congruence|].
+  pose proof (a_touch_calls und (k + 2) cl size) as Hs.
+  destruct (a_touch und (k + 2) cl size) as [[k' cl'] cs]. cbn [r_ptr r_list r_calls snd] in *. intros _.
+  repeat split; try assumption. exists cs. split; [reflexivity|exact Hs].
 Qed.
 
-(* a pointer the wrapper does not know (e.g. a block moved by realloc, which does not go through the wrapper) is passed on as it is *)
-Lemma wrapper_free_unknown l memory : Forall (fun x => wn_mem x <> memory) l -> w_free l memory = (l, [UFree memory 0]).
+(* clean failure: the wrapped allocator refuses the block or the tracking node: NULL, tracking list and statistics as before,
+   and no block of the wrapped allocator stays allocated *)
+Lemma wrapper_alloc_fails_cleanly node_sz und k cl l size :
+  und k size = 0 \/ und (k + 1) node_sz = 0 ->
+  let r := w_alloc node_sz und k cl l size in
+  r_ptr r = 0 /\ r_list r = l /\ r_cl r = cl /\ held (r_calls r) [] = [].
+Proof.
+  intro H. cbv zeta. unfold w_alloc.
+  destruct (N.eqb_spec (und k size) 0) as [E|E].
+  - cbn [r_ptr r_list r_cl r_calls held]. repeat split.
+  - destruct H as [H|H]; [congruence|]. rewrite H. cbn [N.eqb r_ptr r_list r_cl r_calls held].
+    destruct (N.eqb_spec (und k size) 0) as [E'|_]; [congruence|]. cbn [filter]. rewrite N.eqb_refl. repeat split.
+Qed.
+
+(* ... and when it refuses only the statistics node, the caller is served all the same: that size just has no statistics *)
+Lemma wrapper_stat_refused node_sz und k cl l size :
+  und k size <> 0 -> und (k + 1) node_sz <> 0 -> mem size cl = false -> und (k + 2) STAT = 0 ->
+  let r := w_alloc node_sz und k cl l size in
+  r_ptr r = und k size /\ r_cl r = cl /\ r_list r = {| wn_addr := und (k + 1) node_sz; wn_mem := und k size; wn_size := size |} :: l.
+Proof.
+  intros E1 E2 Hm E3. cbv zeta. unfold w_alloc, a_touch.
+  destruct (N.eqb_spec (und k size) 0) as [E|_]; [congruence|].
+  destruct (N.eqb_spec (und (k + 1) node_sz) 0) as [E|_]; [congruence|].
+  rewrite Hm, E3. cbn [N.eqb r_ptr r_cl r_list]. repeat split.
+Qed.
+
+(* free after alloc: the tracking list is what it was; exactly the two pointers obtained are given back, the block found by
+   its own address; in between at most a statistics node is asked for *)
+Lemma wrapper_alloc_free node_sz und k cl l size :
+  let r := w_alloc node_sz und k cl l size in
+  r_ptr r <> 0 ->
+  exists k' cl' cs, w_free und (r_k r) (r_cl r) (r_list r) (r_ptr r) = (k', cl', l, UFree (und (k + 1) node_sz) size :: cs ++ [UFree (r_ptr r) size]) /\
+                    Forall stat_request cs.
+Proof.
+  cbv zeta. intro Hp. destruct (wrapper_transparent node_sz und k cl l size Hp) as (_ & _ & _ & Hl & _).
+  unfold w_free. rewrite Hl. cbn [w_remove wn_mem]. rewrite N.eqb_refl. cbn [wn_size wn_addr].
+  pose proof (a_touch_calls und (r_k (w_alloc node_sz und k cl l size)) (r_cl (w_alloc node_sz und k cl l size)) size) as Hs.
+  destruct (a_touch und (r_k (w_alloc node_sz und k cl l size)) (r_cl (w_alloc node_sz und k cl l size)) size) as [[k' cl'] cs].
+  exists k', cl', cs. split; [reflexivity|exact Hs].
+Qed.
+
+(* a pointer the wrapper does not know (e.g. a block moved by realloc, which does not go through the wrapper) is passed on as it
+   is, accounted for under size 0 *)
+Lemma wrapper_free_unknown und k cl l memory : Forall (fun x => wn_mem x <> memory) l ->
+  exists k' cl' cs, w_free und k cl l memory = (k', cl', l, cs ++ [UFree memory 0]) /\ Forall stat_request cs.
 Proof.
   intro H. unfold w_free. assert (E : w_remove memory l = (None, l)).
   { induction l as [|x r IH]; [reflexivity|]. inversion H as [|? ? Hx Hr]; subst. cbn [w_remove].
     destruct (N.eqb_spec (wn_mem x) memory) as [E|_]; [contradiction|]. rewrite (IH Hr). reflexivity. }
-  rewrite E. reflexivity.
+  rewrite E. pose proof (a_touch_calls und k cl 0) as Hs. destruct (a_touch und k cl 0) as [[k' cl'] cs].
+  exists k', cl', cs. split; [reflexivity|exact Hs].
 Qed.
 
 (* whatever is removed was in the list, everything else stays in order *)
@@ -113,10 +204,39 @@ Proof.
   cbn [fst]. rewrite N.add_mod by discriminate. rewrite Ha. reflexivity.
 Qed.
 
+(* ---- the code as it was.  [und_fail f]: the wrapped allocator refuses its f-th request and serves every other one.
+   Statement: with a fresh accountant and an empty tracking list, whichever of the three underlying requests of alloc_memory(24)
+   -- statistics node, block, tracking node -- is refused, NULL comes back, nothing is recorded and nothing stays allocated.
+   Refuted: f = 2 is the scenario `1 40 1 2 :wrap :m 10` (cpputest_malloc(16) asks the wrapper for 24 bytes): the refused
+   tracking node is written to.  Likewise f = 0 (the refused statistics node is written to); f = 1 returns NULL but records the
+   NULL block like a block and keeps its node *)
+Definition und_fail (f : N) (k size : N) : N := if k =? f then 0 else 4096 + 64 * k.
+Definition w_clean (l : list wnode) (cl : list N) (r : option wres) : Prop :=
+  match r with Some r => r_ptr r = 0 /\ r_list r = l /\ r_cl r = cl /\ held (r_calls r) [] = [] | None => False end.
+Definition wrapper_fault_old_stmt : Prop := forall f, f < 3 -> w_clean [] [] (w_alloc_old NODE (und_fail f) 0 [] [] 24).
+
+Lemma wrapper_fault_old_refuted : ~ wrapper_fault_old_stmt.
+Proof. intro H. specialize (H 2 eq_refl). vm_compute in H. exact H. Qed.
+
+Example ex_old_faults :
+  w_alloc_old NODE (und_fail 0) 0 [] [] 24 = None /\ w_alloc_old NODE (und_fail 2) 0 [] [] 24 = None /\
+  option_map (fun r => (r_ptr r, r_list r)) (w_alloc_old NODE (und_fail 1) 0 [] [] 24) = Some (0, [{| wn_addr := 4224; wn_mem := 0; wn_size := 24 |}]).
+Proof. vm_compute. repeat split. Qed.
+(* the repaired code on the same three fault points (now block, tracking node, statistics node): NULL and clean twice, then served *)
+Example ex_new_faults :
+  w_clean [] [] (Some (w_alloc NODE (und_fail 0) 0 [] [] 24)) /\ w_clean [] [] (Some (w_alloc NODE (und_fail 1) 0 [] [] 24)) /\
+  r_ptr (w_alloc NODE (und_fail 2) 0 [] [] 24) = 4096 /\ r_cl (w_alloc NODE (und_fail 2) 0 [] [] 24) = [] /\
+  r_cl (w_alloc NODE (und_fail 9) 0 [] [] 24) = [24].
+Proof. vm_compute. repeat split. Qed.
+
 Definition ex_und (k size : N) : N := if 1048576 <? size then 0 else 4096 + 64 * k.
-Example ex_wrapper : w_alloc NODE ex_und 3 [] 100 = Some (4288, [{| wn_addr := 4352; wn_mem := 4288; wn_size := 100 |}], [UAlloc 100 4288; UAlloc 24 4352])
-  /\ 4288 mod 16 = 0 /\ fst (fst (w_alloc_prefix NODE ex_und 3 [] 100)) = 4312 /\ 4312 mod 16 = 8.
-Proof. lazy. repeat split. Qed.
+Example ex_wrapper :
+  let r := w_alloc NODE ex_und 3 [] [] 100 in
+  r_ptr r = 4288 /\ r_list r = [{| wn_addr := 4352; wn_mem := 4288; wn_size := 100 |}] /\
+  r_calls r = [UAlloc 100 4288; UAlloc 24 4352; UAlloc 48 4416] /\ r_cl r = [100] /\
+  4288 mod 16 = 0 /\ fst (fst (w_alloc_prefix NODE ex_und 3 [] 100)) = 4312 /\ 4312 mod 16 = 8 /\
+  w_free ex_und (r_k r) (r_cl r) (r_list r) 4288 = (6, [100], [], [UFree 4352 100; UFree 4288 100]).
+Proof. vm_compute. repeat split. Qed.
 
 (* ===================================================================================================================== *)
 (* Part 2: the oracle on wrapper scenarios                                                                                 *)
@@ -133,8 +253,8 @@ Ltac split_all :=
 Definition set_wrap (b : bool) (sc : scenario) : scenario :=
   {| sc_cfg := sc_cfg sc; sc_wrap := b; sc_fail := sc_fail sc; sc_ops := sc_ops sc |}.
 Definition obs_set_wrap (b : bool) (o : obs) : obs :=
-  {| ob_guard := ob_guard o; ob_ns := ob_ns o; ob_wrap := b; ob_ops := ob_ops o; ob_end_live := ob_end_live o;
-     ob_end_total := ob_end_total o; ob_end_rep := ob_end_rep o |}.
+  {| ob_guard := ob_guard o; ob_ns := ob_ns o; ob_wrap := b; ob_faults := ob_faults o; ob_ops := ob_ops o; ob_end_live := ob_end_live o;
+     ob_end_total := ob_end_total o; ob_end_rep := ob_end_rep o; ob_end_leak := ob_end_leak o |}.
 
 (* the model's observation does not depend on the wrappers (beyond echoing the flag) *)
 Lemma run_wrap_independent v b sc : run_v v (set_wrap b sc) = obs_set_wrap b (run_v v sc).
@@ -145,16 +265,23 @@ Proof.
 Qed.
 
 (* ---- whatever is accepted without wrappers is accepted with them *)
+Lemma hard_failed_le cs : hard_failed cs = true -> any_failed cs = true.
+Proof.
+  intro H. destruct (any_failed cs) eqn:E; [reflexivity|]. rewrite (hard_failed_none _ E) in H. discriminate H.
+Qed.
+
 Lemma spec_alloc_mono w c thr n content before after fd o :
   spec_alloc false c thr n content before after fd o = true -> spec_alloc w c thr n content before after fd o = true.
 Proof.
+  destruct w; [|intro H; exact H].
   unfold spec_alloc. cbn [orb]. intro H.
   apply andb_true_iff in H. destruct H as [H H2]. apply andb_true_iff in H. destruct H as [H0 H1].
-  rewrite H0, H1, orb_true_r. cbn [andb].
-  destruct (o_kind o =? K_PTR); [exact H2|].
-  destruct (o_kind o =? (if thr then K_BAD else K_NULL)); [|exact H2].
-  apply andb_true_iff in H2. destruct H2 as [H2 H5]. apply andb_true_iff in H2. destruct H2 as [H2 H4].
-  apply andb_true_iff in H2. destruct H2 as [H2 H3]. rewrite H2, H3, H4, H5, orb_true_r. reflexivity.
+  rewrite H0. cbn [andb].
+  destruct (o_kind o =? K_PTR).
+  - destruct (any_failed (o_calls o)) eqn:Ef; [discriminate H2|]. rewrite (hard_failed_none _ Ef). exact H2.
+  - destruct (o_kind o =? (if thr then K_BAD else K_NULL)); [|exact H2].
+    apply andb_true_iff in H2. destruct H2 as [H2 H5]. apply andb_true_iff in H2. destruct H2 as [H2 H4].
+    apply andb_true_iff in H2. destruct H2 as [H2 H3]. rewrite H2, (wbalanced_of_balanced _ H3), H4, H5. reflexivity.
 Qed.
 
 Lemma spec_step_mono w c l idx o ob l' : spec_step false c l idx o ob = Some l' -> spec_step w c l idx o ob = Some l'.
@@ -180,33 +307,57 @@ Qed.
 
 Lemma spec_wrap_monotone sc o : sc_wrap sc = false -> spec sc o = true -> spec (set_wrap true sc) (obs_set_wrap true o) = true.
 Proof.
-  intros Hw H. unfold spec in *. cbn [set_wrap obs_set_wrap sc_cfg sc_wrap sc_ops ob_guard ob_ns ob_wrap ob_ops ob_end_live ob_end_total ob_end_rep].
+  intros Hw H. unfold spec in *.
+  cbn [set_wrap obs_set_wrap sc_cfg sc_wrap sc_fail sc_ops ob_guard ob_ns ob_wrap ob_faults ob_ops ob_end_live ob_end_total ob_end_rep ob_end_leak].
   rewrite Hw in H.
   repeat match goal with H : _ && _ = true |- _ => apply andb_true_iff in H; destruct H end.
+  match goal with H : (ob_end_leak o <=? 0) = true |- _ => apply N.leb_le in H; rename H into Hleak end.
   repeat match goal with H : Bool.eqb _ _ = true |- _ => apply eqb_prop in H end.
   repeat match goal with H : ?x = true |- context [?x] => rewrite H end.
   match goal with H : ob_guard o = _ |- _ => rewrite H end.
+  match goal with H : ob_faults o = _ |- _ => rewrite H end.
   match goal with H : spec_steps false _ _ _ _ _ _ = true |- _ => rewrite (spec_steps_mono true _ _ _ _ _ _ H) end.
-  rewrite !eqb_reflx. reflexivity.
+  rewrite !eqb_reflx. cbn [andb]. apply N.leb_le. lia.
 Qed.
 
-(* ---- with wrappers the oracle reads from a call log only whether a call failed *)
-Definition canon_calls (cs : list call) : list call := if any_failed cs then [(0, 0, false)] else [].
+(* ---- with wrappers the oracle reads from a call log three facts: a call other than a request for a statistics node failed; a
+   request for a statistics node failed; and, of a request that returned NULL / bad_alloc only, whether everything obtained,
+   statistics nodes apart, was given back.  [canon_calls]: the shortest log with the same facts *)
+Definition nullish (kind : N) : bool := (kind =? K_NULL) || (kind =? K_BAD).
+Definition canon_calls (null : bool) (cs : list call) : list call :=
+  (if hard_failed cs then [(0, 0, false)] else []) ++ (if stat_failed cs then [(0, c05_accountant_node_size, false)] else []) ++
+  (if null && negb (wbalanced cs) then [(0, 0, true)] else []).
 Definition canon_op (o : oobs) : oobs :=
-  {| o_kind := o_kind o; o_calls := canon_calls (o_calls o); o_amod := o_amod o; o_ovl := o_ovl o; o_off := o_off o; o_req := o_req o;
+  {| o_kind := o_kind o; o_calls := canon_calls (nullish (o_kind o)) (o_calls o); o_amod := o_amod o; o_ovl := o_ovl o; o_off := o_off o; o_req := o_req o;
      o_nk := o_nk o; o_nv := o_nv o; o_dig := o_dig o; o_total := o_total o; o_rep := o_rep o |}.
 Definition canon (o : obs) : obs :=
-  {| ob_guard := ob_guard o; ob_ns := ob_ns o; ob_wrap := ob_wrap o; ob_ops := map canon_op (ob_ops o); ob_end_live := ob_end_live o;
-     ob_end_total := ob_end_total o; ob_end_rep := ob_end_rep o |}.
+  {| ob_guard := ob_guard o; ob_ns := ob_ns o; ob_wrap := ob_wrap o; ob_faults := ob_faults o; ob_ops := map canon_op (ob_ops o);
+     ob_end_live := ob_end_live o; ob_end_total := ob_end_total o; ob_end_rep := ob_end_rep o; ob_end_leak := ob_end_leak o |}.
 
-Lemma any_failed_canon cs : any_failed (canon_calls cs) = any_failed cs.
-Proof. unfold canon_calls. destruct (any_failed cs) eqn:E; reflexivity. Qed.
+Lemma any_failed_split cs : any_failed cs = hard_failed cs || stat_failed cs.
+Proof.
+  unfold any_failed, hard_failed, stat_failed. induction cs as [|x cs IH]; cbn [existsb]; [reflexivity|]. rewrite IH.
+  destruct (snd x), (is_stat x), (existsb (fun x0 : call => negb (snd x0) && negb (is_stat x0)) cs); reflexivity.
+Qed.
+
+Lemma canon_facts null cs :
+  hard_failed (canon_calls null cs) = hard_failed cs /\ stat_failed (canon_calls null cs) = stat_failed cs /\
+  (null = true -> wbalanced (canon_calls null cs) = wbalanced cs).
+Proof.
+  unfold canon_calls. destruct null, (hard_failed cs), (stat_failed cs), (wbalanced cs); vm_compute; repeat split; intro; congruence.
+Qed.
+
+Lemma any_failed_canon null cs : any_failed (canon_calls null cs) = any_failed cs.
+Proof. rewrite !any_failed_split. destruct (canon_facts null cs) as (-> & -> & _). reflexivity. Qed.
 
 Lemma spec_alloc_canon c thr n content before after fd o :
   spec_alloc true c thr n content before after fd (canon_op o) = spec_alloc true c thr n content before after fd o.
 Proof.
   unfold spec_alloc, layout_ok. cbn [canon_op o_kind o_calls o_amod o_ovl o_off o_req o_nk o_nv o_dig o_total o_rep orb].
-  rewrite any_failed_canon. reflexivity.
+  rewrite any_failed_canon. destruct (canon_facts (nullish (o_kind o)) (o_calls o)) as (-> & _ & Hb).
+  destruct (o_kind o =? K_PTR); [reflexivity|].
+  destruct (o_kind o =? (if thr then K_BAD else K_NULL)) eqn:E; [|reflexivity].
+  rewrite Hb; [reflexivity|]. apply N.eqb_eq in E. rewrite E. destruct thr; reflexivity.
 Qed.
 
 Lemma spec_step_canon c l idx o ob : spec_step true c l idx o (canon_op ob) = spec_step true c l idx o ob.
@@ -224,33 +375,51 @@ Proof.
   rewrite spec_step_canon. destruct (spec_step true c l idx o ob); [apply IH|reflexivity].
 Qed.
 
+Lemma moved_canon ops : forall obs, moved ops (map canon_op obs) = moved ops obs.
+Proof.
+  induction ops as [|o r IH]; intros obs; destruct obs as [|ob obr]; cbn [moved map]; try reflexivity. rewrite IH. reflexivity.
+Qed.
+
 Lemma spec_wrap_reads_failure_only sc o : sc_wrap sc = true -> spec sc (canon o) = spec sc o.
 Proof.
-  intro Hw. unfold spec. rewrite Hw. cbn [canon ob_guard ob_ns ob_wrap ob_ops ob_end_live ob_end_total ob_end_rep].
-  rewrite spec_steps_canon. reflexivity.
+  intro Hw. unfold spec. rewrite Hw. cbn [canon ob_guard ob_ns ob_wrap ob_faults ob_ops ob_end_live ob_end_total ob_end_rep ob_end_leak].
+  rewrite spec_steps_canon, moved_canon. reflexivity.
 Qed.
 
-(* ---- what an accepted observation guarantees for every returned pointer, wrappers or not *)
-Definition ptr_sound (c : cfg) (ob : oobs) : Prop :=
+(* ---- what an accepted observation guarantees for every returned pointer, wrappers ([w]) or not: no failed call, except that
+   with the wrappers a request for a statistics node may have failed *)
+Definition ptr_sound (w : bool) (c : cfg) (ob : oobs) : Prop :=
   o_kind ob = K_PTR ->
-  o_amod ob = 0 /\ o_ovl ob = 0 /\ o_rep ob = 0 /\ any_failed (o_calls ob) = false /\ exists n, n < W /\ layout_ok c n ob = true.
+  o_amod ob = 0 /\ o_ovl ob = 0 /\ o_rep ob = 0 /\ hard_failed (o_calls ob) = false /\ (w = false -> any_failed (o_calls ob) = false) /\
+  exists n, n < W /\ layout_ok c n ob = true.
+(* ... and for every request that returned NULL / bad_alloc: a call failed or the size is too big, and what was obtained was
+   given back (statistics nodes apart with the wrappers) *)
+Definition null_clean (w : bool) (ob : oobs) : Prop :=
+  o_kind ob = K_NULL \/ o_kind ob = K_BAD -> o_rep ob = 0 /\ (if w then wbalanced (o_calls ob) else balanced (o_calls ob)) = true.
 
-Lemma spec_alloc_ptr w c thr n content before after fd o : spec_alloc w c thr n content before after fd o = true -> ptr_sound c o.
+Lemma spec_alloc_ptr w c thr n content before after fd o : spec_alloc w c thr n content before after fd o = true -> ptr_sound w c o /\ null_clean w o.
 Proof.
-  unfold spec_alloc. intros H Hk. rewrite Hk in H. change (K_PTR =? K_PTR) with true in H. cbv iota in H.
-  split_all. repeat split; try assumption. exists n. split; assumption.
+  unfold spec_alloc. intro H. split.
+  - intro Hk. rewrite Hk in H. change (K_PTR =? K_PTR) with true in H. cbv iota in H.
+    split_all. destruct w;
+      (repeat split; try assumption; try (intro; discriminate); try (intro; assumption); try (apply hard_failed_none; assumption);
+       try (exists n; split; assumption)).
+  - intro Hk. apply andb_true_iff in H. destruct H as [H H2]. apply andb_true_iff in H. destruct H as [H0 _]. apply N.eqb_eq in H0.
+    split; [exact H0|].
+    destruct (o_kind o =? K_PTR) eqn:E; [apply N.eqb_eq in E; destruct Hk as [Hk|Hk]; rewrite Hk in E; discriminate E|].
+    destruct (o_kind o =? (if thr then K_BAD else K_NULL)); [|discriminate H2]. split_all. assumption.
 Qed.
 
-Lemma spec_step_ptr w c l idx o ob l' : spec_step w c l idx o ob = Some l' -> ptr_sound c ob.
+Lemma spec_step_ptr w c l idx o ob l' : spec_step w c l idx o ob = Some l' -> ptr_sound w c ob /\ null_clean w ob.
 Proof.
   assert (A : forall thr n content before after fd X,
-             (if spec_alloc w c thr n content before after fd ob then Some X else None) = Some l' -> ptr_sound c ob).
+             (if spec_alloc w c thr n content before after fd ob then Some X else None) = Some l' -> ptr_sound w c ob /\ null_clean w ob).
   { intros thr n content before after fd X H.
     destruct (spec_alloc w c thr n content before after fd ob) eqn:E; [|discriminate H]. exact (spec_alloc_ptr _ _ _ _ _ _ _ _ _ E). }
-  assert (S : forall X : option live, (if spec_skip l ob then X else None) = Some l' -> ptr_sound c ob).
-  { intros X H Hk. unfold spec_skip in H. rewrite Hk in H. discriminate H. }
-  assert (V : forall (b2 b3 : bool) X, (if (o_kind ob =? K_VOID) && b2 && b3 then X else None) = Some l' -> ptr_sound c ob).
-  { intros b2 b3 X H Hk. rewrite Hk in H. discriminate H. }
+  assert (S : forall X : option live, (if spec_skip l ob then X else None) = Some l' -> ptr_sound w c ob /\ null_clean w ob).
+  { intros X H. unfold spec_skip in H. split; [intro Hk|intros [Hk|Hk]]; rewrite Hk in H; discriminate H. }
+  assert (V : forall (b2 b3 : bool) X, (if (o_kind ob =? K_VOID) && b2 && b3 then X else None) = Some l' -> ptr_sound w c ob /\ null_clean w ob).
+  { intros b2 b3 X H. split; [intro Hk|intros [Hk|Hk]]; rewrite Hk in H; discriminate H. }
   destruct o as [n|n|a b|[i|] n|s|s k|arr thr n|i|i off bytes]; cbn [spec_step]; try apply A.
   - destruct (l_find i l) as [[fam d]|]; [|apply S]. destruct fam; [apply A|apply S].
   - destruct (l_find i l) as [[fam d]|]; [apply V|apply S].
@@ -258,18 +427,30 @@ Proof.
     destruct ((off <=? N.of_nat (length d)) && (N.of_nat (length bytes) <=? N.of_nat (length d) - off)); [apply V|apply S].
 Qed.
 
-Lemma spec_steps_ptr w c ops : forall l idx obs e, spec_steps w c l idx ops obs e = true -> Forall (ptr_sound c) obs.
+Lemma spec_steps_ptr w c ops : forall l idx obs e, spec_steps w c l idx ops obs e = true -> Forall (fun ob => ptr_sound w c ob /\ null_clean w ob) obs.
 Proof.
   induction ops as [|o r IH]; intros l idx obs e H; destruct obs as [|ob obr]; cbn [spec_steps] in H; try discriminate H; [constructor|].
   destruct (spec_step w c l idx o ob) as [l'|] eqn:E; [|discriminate H].
   constructor; [exact (spec_step_ptr _ _ _ _ _ _ _ E)|exact (IH _ _ _ _ H)].
 Qed.
 
-Lemma spec_demands sc o : spec sc o = true ->
-  ob_wrap o = sc_wrap sc /\ Forall (ptr_sound (sc_cfg sc)) (ob_ops o) /\ ob_end_total o = 0 /\ ob_end_rep o = 0.
+Lemma moved_le ops : forall obs, moved ops obs <= N.of_nat (length ops).
 Proof.
-  unfold spec. intro H. split_all. repeat split; try assumption.
-  match goal with H : spec_steps _ _ _ _ _ _ _ = true |- _ => exact (spec_steps_ptr _ _ _ _ _ _ _ H) end.
+  induction ops as [|o r IH]; intros obs; destruct obs as [|ob obr]; cbn [moved length]; try lia.
+  specialize (IH obr). destruct o as [n|n|a b|[i|] n|s|s k|arr thr n|i|i off bytes]; try lia. destruct (o_kind ob =? K_PTR); lia.
+Qed.
+
+Lemma spec_demands sc o : spec sc o = true ->
+  ob_wrap o = sc_wrap sc /\ Forall (fun ob => ptr_sound (sc_wrap sc) (sc_cfg sc) ob /\ null_clean (sc_wrap sc) ob) (ob_ops o) /\
+  ob_end_total o = 0 /\ ob_end_rep o = 0 /\ (sc_wrap sc = false -> ob_end_leak o = 0) /\ ob_end_leak o <= moved (sc_ops sc) (ob_ops o).
+Proof.
+  unfold spec. intro H.
+  repeat match goal with H : _ && _ = true |- _ => apply andb_true_iff in H; destruct H end.
+  match goal with H : (ob_end_leak o <=? _) = true |- _ => apply N.leb_le in H; rename H into Hleak end.
+  split_all. repeat split; try assumption.
+  - match goal with H : spec_steps _ _ _ _ _ _ _ = true |- _ => exact (spec_steps_ptr _ _ _ _ _ _ _ H) end.
+  - intro Hw. rewrite Hw in Hleak. lia.
+  - destruct (sc_wrap sc); lia.
 Qed.
 
 (* ---- the hypotheses can be met: a wrapper scenario, its observation, and the observation with the blocks 8 mod 16 *)
@@ -277,13 +458,33 @@ Definition ex_wcfg : cfg := {| guard_on := true; node_size := 64 |}.
 Definition ex_wrapped : scenario :=
   {| sc_cfg := ex_wcfg; sc_wrap := true; sc_fail := []; sc_ops := [OMalloc 16; ONew false true 8; ORealloc (Some 0) 40; OMalloc 2097152; OFree 1] |}.
 Definition misalign (o : obs) : obs :=
-  {| ob_guard := ob_guard o; ob_ns := ob_ns o; ob_wrap := ob_wrap o;
+  {| ob_guard := ob_guard o; ob_ns := ob_ns o; ob_wrap := ob_wrap o; ob_faults := ob_faults o;
      ob_ops := map (fun x => {| o_kind := o_kind x; o_calls := o_calls x; o_amod := (if o_kind x =? K_PTR then 8 else 0); o_ovl := o_ovl x;
                                 o_off := o_off x; o_req := o_req x; o_nk := o_nk x; o_nv := o_nv x; o_dig := o_dig x; o_total := o_total x;
                                 o_rep := o_rep x |}) (ob_ops o);
-     ob_end_live := ob_end_live o; ob_end_total := ob_end_total o; ob_end_rep := ob_end_rep o |}.
+     ob_end_live := ob_end_live o; ob_end_total := ob_end_total o; ob_end_rep := ob_end_rep o; ob_end_leak := ob_end_leak o |}.
 Example ex_wrapped_run : valid ex_wrapped = true /\ spec ex_wrapped (run ex_wrapped) = true /\ spec ex_wrapped (canon (run ex_wrapped)) = true /\
   map o_kind (ob_ops (run ex_wrapped)) = [K_PTR; K_PTR; K_PTR; K_NULL; K_VOID] /\ spec ex_wrapped (misalign (run ex_wrapped)) = false.
 Proof. lazy. repeat split. Qed.
-Example ex_wrapped_faults_invalid : valid {| sc_cfg := ex_wcfg; sc_wrap := true; sc_fail := [1]; sc_ops := [OMalloc 16] |} = false.
-Proof. reflexivity. Qed.
+
+(* ---- fault points with the wrappers installed: what the implementation observes on `1 40 1 k :wrap :m 10` for k = 2 (the
+   statistics node refused: a sound block all the same), k = 1 (the tracking node refused: NULL, the block given back) -- accepted;
+   the second with the block not given back, and a pointer after a refused tracking node -- rejected.  Logs as the harness prints
+   them: block 24, tracking node 24, statistics node 48, leak record 64, its tracking node 24, its statistics node 48 *)
+Definition ex_wfault (k : N) : scenario := {| sc_cfg := ex_wcfg; sc_wrap := true; sc_fail := [k]; sc_ops := [OMalloc 16] |}.
+Definition ex_wobs (kind : N) (cs : list call) (live : list (N * list N)) (leak : N) : obs :=
+  {| ob_guard := true; ob_ns := 64; ob_wrap := true; ob_faults := true;
+     ob_ops := [{| o_kind := kind; o_calls := cs; o_amod := 0; o_ovl := 0; o_off := 0; o_req := (if kind =? K_PTR then 24 else 0);
+                   o_nk := (if kind =? K_PTR then 2 else 0); o_nv := (if kind =? K_PTR then 64 else 0);
+                   o_dig := (if kind =? K_PTR then repeat FILL 16 else []); o_total := (if kind =? K_PTR then 1 else 0); o_rep := 0 |}];
+     ob_end_live := live; ob_end_total := 0; ob_end_rep := 0; ob_end_leak := leak |}.
+Definition ok_calls : list call := [(0, 24, true); (0, 24, true); (0, 48, false); (0, 64, true); (0, 24, true); (0, 48, true)].
+Example ex_wrapped_faults :
+  valid (ex_wfault 2) = true /\
+  spec (ex_wfault 2) (ex_wobs K_PTR ok_calls [(0, repeat FILL 16)] 0) = true /\
+  spec (ex_wfault 1) (ex_wobs K_NULL [(0, 24, true); (0, 24, false); (2, 0, true)] [] 0) = true /\
+  spec (ex_wfault 1) (ex_wobs K_NULL [(0, 24, true); (0, 24, false)] [] 0) = false /\
+  spec (ex_wfault 1) (ex_wobs K_NULL [(0, 24, true); (0, 24, false); (2, 0, true)] [] 1) = false /\
+  spec (ex_wfault 1) (ex_wobs K_PTR [(0, 24, true); (0, 24, false); (0, 48, true); (0, 64, true); (0, 24, true); (0, 48, true)] [(0, repeat FILL 16)] 0) = false /\
+  spec (ex_wfault 2) (run (ex_wfault 2)) = true.
+Proof. vm_compute. repeat split. Qed.
